@@ -1,6 +1,7 @@
 pub mod cache;
 pub mod client;
 pub mod server;
+pub mod tsig;
 pub mod zone_answers;
 pub mod zonestore;
 
@@ -12,6 +13,7 @@ pub fn scenario_by_name(name: &str) -> Option<Arc<dyn Scenario>> {
         "client" => Arc::new(client::ClientScn),
         "cache" => Arc::new(cache::CacheScn),
         "server" => Arc::new(server::ServerScn),
+        "tsig" => Arc::new(tsig::TsigScn),
         "zone_isolation" => Arc::new(zonestore::IsolationScn),
         "zone_answers" => Arc::new(zone_answers::AnswersScn),
         _ => return None,
@@ -21,6 +23,11 @@ pub fn scenario_by_name(name: &str) -> Option<Arc<dyn Scenario>> {
 
 pub fn check_spec(property: &str) -> Option<CheckSpec> {
     let spec = match property {
+        "C11" => CheckSpec {
+            property: "C11",
+            level: "exploration",
+            scenarios: vec![(Arc::new(tsig::TsigScn), 150_000, 8_000_000)],
+        },
         "C15" => CheckSpec {
             property: "C15",
             level: "exploration",
